@@ -397,18 +397,25 @@ def translate_expression(expr, env: Env) -> TExp:  # noqa: C901
             if len(args) != len(def_f[1]):
                 raise TypeErrorException(args, def_f[1])
 
+            def _flat(v):
+                if isinstance(v, List):
+                    return [b for el in v for b in _flat(el)]
+                return [v]
+
             subs = {}
             for a, fa in zip(args, def_f[1]):
                 if isinstance(a[1], List):
-                    for i in range(len(a[1])):  # type: ignore
-                        index = ".".join(a[1][i].name.split(".")[1:])  # type: ignore
-                        if index == "":
-                            index = f"{i}"
+                    # The i-th bit of the actual argument replaces the i-th bit of
+                    # the formal one, whatever the actual bits are named
+                    a_bits = _flat(a[1])
+                    if len(a_bits) != len(fa.bitvec):
+                        raise TypeErrorException(a[0], fa.ttype)
 
-                        subs[f"{fa.name}.{index}"] = a[1][i]  # type: ignore
+                    for f_bit, a_bit in zip(fa.bitvec, a_bits):
+                        subs[Symbol(f_bit)] = a_bit
 
                 else:
-                    subs[fa.name] = a[1]
+                    subs[Symbol(fa.name)] = a[1]
 
             n_exps = []
             for s, e in def_f[3]:
